@@ -85,6 +85,30 @@ Theorem C10_unverified_safe_pointer : forall l s p count elsz a,
 Proof. exact usp_counted. Qed.
 Print Assumptions C10_unverified_safe_pointer.
 
+(* copy_memory_or_deny_access (copy path): a source buffer inside sandbox s is read for exactly num*elsz
+   bytes, all inside s; a request whose extent leaves s, wraps, or is empty is refused before anything is read *)
+Theorem C10_copy_or_deny_safe : forall l s src num elsz fp,
+  world_ok l -> In s l -> inr s src = true -> 0 <= num -> 0 < elsz ->
+  copy_or_deny true l src num elsz = Ok fp ->
+  fp = [RD src (num * elsz)] /\ 0 < num /\ range_inside s src (num * elsz) = true.
+Proof. exact copy_or_deny_safe. Qed.
+Theorem C10_copy_or_deny_refuses : forall l s src num elsz,
+  world_ok l -> In s l -> inr s src = true -> 0 < num -> 0 < elsz ->
+  range_inside s src (num * elsz) = false -> copy_or_deny true l src num elsz = Abort.
+Proof. exact copy_or_deny_refuses. Qed.
+Print Assumptions C10_copy_or_deny_safe.
+
+(* copy_memory_or_grant_access (copy path): whatever the back end's allocator returns, the bytes written lie
+   inside sandbox s and the bytes read are a good application-side range *)
+Theorem C10_copy_or_grant_safe : forall gg l s total src num elsz ret fp,
+  world_ok l -> uniform l total -> total <= 2^63 -> In s l ->
+  0 < num -> 0 < elsz -> 0 < w64 (num * elsz) -> 0 <= src -> src + w64 (num * elsz) <= M64 ->
+  copy_or_grant gg l s total src num elsz ret = Ok fp -> fp <> [] ->
+  exists p, fp = [WR p (w64 (num * elsz)); RD src (w64 (num * elsz))] /\ inr s p = true /\
+            range_inside s p (w64 (num * elsz)) = true /\ range_good l src (w64 (num * elsz)) = true.
+Proof. exact copy_or_grant_safe. Qed.
+Print Assumptions C10_copy_or_grant_safe.
+
 Theorem C10_code_is_guarded : g = true.
 Proof. reflexivity. Qed.
 
